@@ -35,6 +35,8 @@ def supported():
 def result_from_world(w, res=None):
     res = res or RunResult()
     sim = w.sim
+    if getattr(sim, 'harness_fault', None):
+        raise HarnessError(sim.harness_fault)
     if sim.end_state == 'step-cap' and (
             w.last_api_step > sim.max_steps // 2 or
             sim.last_progress_step > sim.max_steps * 3 // 4):
